@@ -9,6 +9,7 @@
    The per-closure access profile [access_info] is regenerated from filters.go by go2coq filtertotal. *)
 From Coq Require Import List Bool String Lia.
 From RG.Base Require Import Outcome.
+From RG.Filters Require Import FilterIR.
 Import ListNotations.
 Local Open Scope string_scope.
 
@@ -112,6 +113,77 @@ Theorem render_total skips tg s : skips || tg = true -> render_capture skips tg 
 Proof.
   intros H. destruct s as [|[|n]|]; cbn; try (destruct tg; reflexivity).
   destruct skips; [reflexivity|]. cbn in H. subst tg. reflexivity.
+Qed.
+
+(* ------------------------------------------------------------------ where the text of a capture comes from *)
+(* nodeText slices the file's bytes when the capture's extent lies inside what the file system holds at the file's path;
+   otherwise (a file that exists in memory only, an editor buffer whose saved version is shorter) it prints the node.
+   go/printer knows expressions, statements, declarations and specs; anything else a pattern can capture (a comment, a
+   gogrep node list, a field, a field list) must be taken apart by the engine first.  [h] is the list of node types the
+   fallback handles itself, [recur] says that the parts of a list are printed through the same function: both are
+   regenerated from runner.go. *)
+Inductive nclass :=
+| NcPrintable             (* ast.Expr, ast.Stmt, ast.Decl, ast.Spec, *ast.File *)
+| NcComment
+| NcField
+| NcFieldList
+| NcSlice (of_fields : bool).   (* gogrep.NodeSlice of printable nodes resp. of fields *)
+
+Definition print_ok (h : list string) (recur : bool) (c : nclass) : bool :=
+  match c with
+  | NcPrintable => true
+  | NcComment => mem "*ast.Comment" h
+  | NcField => mem "*ast.Field" h
+  | NcFieldList => mem "*ast.FieldList" h && recur && mem "*ast.Field" h
+  | NcSlice f => mem "*gogrep.NodeSlice" h && recur && (negb f || mem "*ast.Field" h)
+  end.
+
+Definition print_handles_all (h : list string) (recur : bool) : bool :=
+  mem "*ast.Comment" h && mem "*ast.Field" h && mem "*ast.FieldList" h && mem "*gogrep.NodeSlice" h && recur.
+
+Lemma print_handles_all_spec h recur c : print_handles_all h recur = true -> print_ok h recur c = true.
+Proof.
+  unfold print_handles_all. rewrite !andb_true_iff. intros ((((H1 & H2) & H3) & H4) & H5).
+  destruct c as [| | | |f]; cbn; rewrite ?H1, ?H2, ?H3, ?H4, ?H5; try reflexivity. now destruct f.
+Qed.
+
+(* fetching the text of a non-absent capture of class c; readable: its extent lies inside the bytes on disk *)
+Definition text_fetch (h : list string) (recur : bool) (readable : bool) (s : cshape) (c : nclass) : outcome unit :=
+  if absent s || readable then Ok tt else if print_ok h recur c then Ok tt else Panic PExplicit.
+
+(* a closure run on a file whose bytes may or may not be readable *)
+Definition closure_run_on (ac : access_info) (text_guarded : bool) (h : list string) (recur readable : bool)
+    (s : cshape) (c : nclass) (tf : tfacts) : outcome unit :=
+  seq (closure_run ac text_guarded s tf) (if ac_text ac then text_fetch h recur readable s c else Ok tt).
+
+Theorem filters_total_on ac tg h recur readable s c tf :
+  access_safe tg ac = true -> print_handles_all h recur = true -> closure_run_on ac tg h recur readable s c tf = Ok tt.
+Proof.
+  intros Ha Hp. unfold closure_run_on. rewrite (filters_total ac tg s tf Ha). cbn.
+  destruct (ac_text ac); [|reflexivity]. unfold text_fetch.
+  destruct (absent s || readable); [reflexivity|]. now rewrite (print_handles_all_spec h recur c Hp).
+Qed.
+
+(* the cases are necessary: a fallback that hands a node list (or a field list) to go/printer crashes every closure that
+   reads the text of such a capture, as soon as the file's bytes cannot be read back (what the unfixed tree did) *)
+Theorem unhandled_list_crashes ac tg recur tf n f : access_safe tg ac = true -> ac_text ac = true ->
+  closure_run_on ac tg ["*ast.Comment"] recur false (ShList (S n)) (NcSlice f) tf = Panic PExplicit /\
+  closure_run_on ac tg ["*ast.Comment"] recur false ShNode NcFieldList tf = Panic PExplicit /\
+  closure_run_on ac tg ["*ast.Comment"] recur true (ShList (S n)) (NcSlice f) tf = Ok tt.
+Proof.
+  intros Ha Ht. unfold closure_run_on. rewrite !(filters_total ac tg _ tf Ha), Ht. repeat split.
+Qed.
+
+(* message / suggestion interpolation: the same fetch after the renderer's own guards *)
+Definition render_capture_on (skips_typed_nil text_guarded : bool) (h : list string) (recur readable : bool)
+    (s : cshape) (c : nclass) : outcome unit :=
+  seq (render_capture skips_typed_nil text_guarded s) (text_fetch h recur readable s c).
+
+Theorem render_total_on skips tg h recur readable s c :
+  skips || tg = true -> print_handles_all h recur = true -> render_capture_on skips tg h recur readable s c = Ok tt.
+Proof.
+  intros H Hp. unfold render_capture_on. rewrite (render_total skips tg s H). cbn. unfold text_fetch.
+  destruct (absent s || readable); [reflexivity|]. now rewrite (print_handles_all_spec h recur c Hp).
 Qed.
 
 (* ------------------------------------------------------------------ the report *)
